@@ -126,6 +126,12 @@ class Sandbox:
             f.write("def decoy_only(a: int) -> int:\n    return a\n")
         with open(os.path.join(self.root, "decoy_file", top), "w", encoding="utf-8") as f:
             f.write("not a package\n")
+        # ... and the configuration files of somebody else's project (mypy would pick them up from the working directory)
+        for name, text in (("mypy.ini", "[mypy]\nimplicit_optional = True\nstrict_optional = False\n"),
+                           ("setup.cfg", "[mypy]\nimplicit_optional = True\n"),
+                           ("pyproject.toml", "[tool.mypy]\nimplicit_optional = true\n")):
+            with open(os.path.join(self.root, "decoy_file", name), "w", encoding="utf-8") as f:
+                f.write(text)
 
     def destroy(self) -> None:
         shutil.rmtree(self.base, ignore_errors=True)
